@@ -432,10 +432,59 @@ func c16ProofPosBig(c *core.Ctx, idx int) {
 			c.Violate("ProofPositions", "computable-positions", "many-targets", fmt.Sprintf("n=%d totalRows=%d, %d targets (first %d, stride %d): got %d positions, want %d", n, tot, len(slots), slots[0], stride, len(gotComp), len(wantComp)))
 			return
 		}
+		c16ResultsIndependent(c, gotProof, gotComp, fmt.Sprintf("n=%d totalRows=%d, %d targets", n, tot, len(slots)))
 		c.Distinct(core.FP("ppbig", n, int(tot), len(slots), int(stride), int(start)))
 	}
 	c.Count("proof_position_requests_with_hundreds_of_targets", 1)
 }
+
+// c16ResultsIndependent: the two slices ProofPositions returns belong to the caller, each on its own.
+// Appending to one of them (within whatever capacity it came with) or overwriting its elements must
+// leave the other exactly what it was (round 10, seeded change C16j: both carved from one buffer,
+// the first without a capacity limit).
+func c16ResultsIndependent(c *core.Ctx, a, b []uint64, desc string) {
+	wantA, wantB := cloneU64Tight(a), cloneU64Tight(b)
+	const mark = 0xA5A5A5A5A5A5A5A5
+	grow := func(x []uint64) []uint64 {
+		room := cap(x) - len(x)
+		if room > 6 {
+			room = 6
+		}
+		for i := 0; i < room; i++ {
+			x = append(x, mark+uint64(i)) // stays inside the capacity the library handed out
+		}
+		return x
+	}
+	a2 := grow(a)
+	if !eqU64(b, wantB) {
+		c.Violate("ProofPositions", "results-share-memory", "append-to-first", fmt.Sprintf("%s: appending %d elements to the first result changed the second: %v -> %v", desc, len(a2)-len(a), wantB, b))
+		return
+	}
+	b2 := grow(b)
+	if !eqU64(a2[:len(wantA)], wantA) {
+		c.Violate("ProofPositions", "results-share-memory", "append-to-second", fmt.Sprintf("%s: appending %d elements to the second result changed the first", desc, len(b2)-len(b)))
+		return
+	}
+	for i := range b {
+		b[i] = mark
+	}
+	if !eqU64(a2[:len(wantA)], wantA) {
+		c.Violate("ProofPositions", "results-share-memory", "write-to-second", desc+": overwriting the second result changed the first")
+		return
+	}
+	for i := range a {
+		a[i] = mark
+	}
+	for i := range b {
+		if b[i] != mark {
+			c.Violate("ProofPositions", "results-share-memory", "write-to-first", desc+": overwriting the first result changed the second")
+			return
+		}
+	}
+	c.Count("proof_position_result_pairs_checked_for_shared_memory", 1)
+}
+
+func cloneU64Tight(x []uint64) []uint64 { return append([]uint64(nil), x...) }
 
 // c16ProofPos: every subset of leaf positions of a forest with n leaves.
 func c16ProofPos(c *core.Ctx, n uint64) {
@@ -508,6 +557,9 @@ func c16ProofPos(c *core.Ctx, n uint64) {
 			}
 			if !eqU64(gotComp, wantComp) {
 				c.Violate("ProofPositions", "computable-positions", "", fmt.Sprintf("n=%d totalRows=%d targets %v: got %v want %v", n, tot, targets, gotComp, wantComp))
+			}
+			if c.CaseViolations() == 0 {
+				c16ResultsIndependent(c, gotProof, gotComp, fmt.Sprintf("n=%d totalRows=%d targets %v", n, tot, targets))
 			}
 			c.Distinct(core.FP("pp", n, int(tot), mask))
 			if c.CaseViolations() > 3 {
